@@ -221,6 +221,8 @@ single_new_harness!(c12_single_domain_new_1, 1, 3);
 single_new_harness!(c12_single_domain_new_2, 2, 4);
 single_new_harness!(c12_single_domain_new_3, 3, 5);
 single_new_harness!(c12_single_domain_new_4, 4, 6);
+// N = 5 (unwind 7): 262 s / 5.9 GB on the tree before the is_valid_domain fixes (dfb98ff, 3df74c4); with the two
+// extra checks of the fixed function it runs out of memory under the 8 GB cap, so it is not in specs/C12.json.
 single_new_harness!(c12_single_domain_new_5, 5, 7);
 // N = 6 (unwind 8): out of memory under the 8 GB cap after 143 s (nested split / CharSearcher / memchr loops)
 
